@@ -65,6 +65,12 @@ func GenByProfile(profile string, seed int64, i int, id string) *scen.Scenario {
 	case "layout":
 		return scen.GenLayout(r, scen.LayoutCfg{MaxIfaces: 3, MaxMethods: 40, Surround: true, Comments: true, OneLine: true,
 			NotationsIface: true, DoclessIface: 0.3, Imports: true, BuildVariants: true, PkgDoc: true}, id, id)
+	case "match":
+		return scen.GenBroad(r, scen.Match(), id, id)
+	case "notate":
+		return scen.GenBroad(r, scen.Notate(), id, id)
+	case "shapes":
+		return scen.GenBroad(r, scen.Shapes(), id, id)
 	case "errs":
 		return scen.GenBroad(r, scen.Errs(), id, id)
 	case "hooks":
